@@ -250,6 +250,13 @@ func (ss StdSignature) MarshalToSizedBuffer(dAtA []byte) (int, error) {
 	return p.MarshalToSizedBuffer(dAtA)
 }
 
+// Size is the protobuf size of the signature. Without it the method promoted from the embedded
+// crypto.PublicKey (the key length) would be used by MarshalBinaryLengthPrefixed.
+func (ss StdSignature) Size() int {
+	p := ss.ToProto()
+	return p.Size()
+}
+
 func (ss *StdSignature) Unmarshal(data []byte) error {
 	var pss ProtoStdSignature
 	err := pss.Unmarshal(data)
